@@ -88,12 +88,28 @@ func nextSize(r *gen.Rand, cur int) (size int, tag string) {
 	case 10:
 		return maxMsg + r.Range(-1, 1), "max"
 	case 11:
+		if r.Chance(1, 3) {
+			return sizeLandmark(r), "landmark"
+		}
 		return maxMsg + r.Range(2, 200000), "huge"
 	case 12:
 		return r.Range(1, maxMsg-1), "uniform"
 	default:
 		return r.Range(100000, 400000), "mid"
 	}
+}
+
+// sizeLandmarks: sizes far beyond the budget, at the limits other layers know about — "unless a single file exceeds it"
+// has no upper end: 2x/3x the budget, gRPC's default receive limit of 4 MiB (and the smallest limit grpc/messagesize lets
+// operators configure) minus/plus one, 8, 16 and 32 MiB
+var sizeLandmarks = []int{2 << 20, 3<<20 + 7, 4<<20 - 1, 4 << 20, 4<<20 + 1, 4<<20 + 4097, 5 << 20, 8<<20 + 1, 16<<20 + 1, 32<<20 + 3}
+
+func sizeLandmark(r *gen.Rand) int {
+	// the largest ones are rare: a pipeline case serialises every message once
+	if r.Chance(3, 4) {
+		return sizeLandmarks[r.Intn(7)]
+	}
+	return gen.Pick(r, sizeLandmarks)
 }
 
 // track the chunker's greedy rule to know the current partial sum (only to aim the generator; not an oracle)
@@ -208,7 +224,7 @@ func genGRPCCase(r *gen.Rand) (caseSpec, string) {
 	genStats(r, &e, r.Chance(1, 5))
 	e.Prio, e.MaxP = genPri(r), genPri(r)
 	class := "grpc-files"
-	budget := 8 << 20
+	budget := 24 << 20
 	switch r.Intn(8) {
 	case 0:
 		class = "grpc-stats-only"
@@ -225,7 +241,7 @@ func genGRPCCase(r *gen.Rand) (caseSpec, string) {
 func genSeqCase(r *gen.Rand, op string) (caseSpec, string) {
 	g := &idgen{}
 	cs := caseSpec{Op: op}
-	budget := 6 << 20 // bytes of file content per case
+	budget := 12 << 20 // bytes of file content per case
 	var n int
 	var pStatsOnly, pZero, pBig int // percentages
 	class := ""
